@@ -45,7 +45,7 @@ class ReconRun:
         from aioesphomeapi.reconnect_logic import ReconnectLogic
 
         self.cfg = cfg
-        self.w = World(seed=seed, noise=False, client=True)
+        self.w = World(seed=seed, noise=False, client=True, password="pw")
         self.loop = self.w.loop
         self.zmod = zmod
         self._orig_azc = zmod.AsyncZeroconf
